@@ -348,6 +348,7 @@ CHECKS["C08"] = {
     "technique": "bounded-exhaustive range grid + rapid request sequences against an RFC 7233 reference over real files",
     "nontrivial_floor": 500,
     "units": [
+        {"name": "vhost", "run": "^TestC08VHost$", "kind": "plain"},
         {"name": "replaced-file", "run": "^TestC08Replaced$", "kind": "plain"},
         {"name": "cache-expiry", "run": "^TestC08CacheExpiry$", "kind": "plain", "shards": 8},
         {"name": "range-grid", "run": "^TestC08RangeGrid$", "kind": "plain", "shards": 8},
